@@ -752,6 +752,11 @@ func (t *ZeroAllocTokenizer) tokenizeTemplatePath(path string) {
 		(strings.HasPrefix(path, "'") && strings.HasSuffix(path, "'"))) {
 		// Extract content without quotes
 		content := path[1 : len(path)-1]
+		if strings.IndexByte(content, path[0]) >= 0 {
+			// More than one literal ('a' ~ 'b') or an escaped quote: an expression
+			t.TokenizeExpression(path)
+			return
+		}
 		t.AddToken(TOKEN_STRING, content, t.line)
 	} else {
 		// Otherwise tokenize as expression
